@@ -44,6 +44,10 @@ def build():
     U.add(SPEC)
     U.impl('impl TaskQueue', [
         U.fn(MQ, 'TaskQueue', 'schedule', external_body=True, ensures=[('assumed', 'r is Ok ==> scheduled(*self, task)')]),
+        # the other scheduling entry points: `schedule_missing` keeps an existing (pending OR running) entry and adds nothing, so it
+        # does not establish the obligation; `schedule_and_finish_existing` does
+        U.fn(MQ, 'TaskQueue', 'schedule_missing', external_body=True),
+        U.fn(MQ, 'TaskQueue', 'schedule_and_finish_existing', external_body=True, ensures=[('assumed', 'r is Ok ==> scheduled(*self, task)')]),
         U.fn(MQ, 'TaskQueue', 'schedule_for_ca_event', keep_arms={'CertAuthEvent': KEEP},
              requires=[('kept_events_only', '!(event is VxOther)')],
              ensures=[
